@@ -247,3 +247,877 @@ def unit_dates(ctx):
             ctx.digest(bytes(res))
             ctx.count(18 * 37 - 1, "date:ymd-grid")
     rep.flush()
+
+
+# =============================================================================
+# primes: exhaustive windows
+# =============================================================================
+
+def unit_primes_window(ctx):
+    """params lo, hi (multiples of 256), fns subset of W (priIsPrimeW), P (priIsPrime), N (priNextPrimeW)"""
+    lib, rep = ctx.lib, Reporter(ctx)
+    lo, hi, fns = ctx.params["lo"], ctx.params["hi"], ctx.params["fns"]
+    MARG = 4096
+    flags = M.sieve_window(lo, hi + MARG)
+    # oracle self-check on a sample (segmented sieve against Miller-Rabin)
+    for i in range(0, hi + MARG - lo, max(1, (hi - lo) // 200)):
+        if bool(flags[i]) != M.is_prime(lo + i):
+            raise Harness("sieve_window disagrees with Miller-Rabin at %d" % (lo + i))
+    # least odd prime >= x, from the sieve
+    nxt = [None] * (hi + MARG - lo + 1)
+    cur = None
+    for i in range(hi + MARG - lo - 1, -1, -1):
+        if flags[i] and (lo + i) % 2:
+            cur = lo + i
+        nxt[i] = cur
+    Wmax = 1 << lib.B
+    stW = lib.priIsPrimeW_deep()
+    for s in range(lo, hi, 256):
+        blk = range(s, s + 256)
+        wfit = s + 256 <= Wmax
+        n = nwords(lib, s + 255)
+        cls = "window:" + ("word" if wfit else "multiword")
+        if "W" in fns and wfit:
+            if ctx.case(["priIsPrimeW", s, 256], cls + ":priIsPrimeW"):
+                st = lib.alloc(stW)
+                res = bytearray()
+                for a in blk:
+                    refill(lib, st, stW)
+                    got = lib.priIsPrimeW(a, st)
+                    res.append(1 if got else 0)
+                    if bool(got) != bool(flags[a - lo]):
+                        rep("priIsPrimeW:" + ("accepts-composite" if got else "rejects-prime"),
+                            "priIsPrimeW (deterministic per pri.h) gives the wrong answer", {"a": a, "got": got})
+                lib.release()
+                ctx.digest(bytes(res))
+                ctx.count(255, cls + ":priIsPrimeW")
+        if "P" in fns:
+            if ctx.case(["priIsPrime", s, 256, n], cls + ":priIsPrime"):
+                dp = lib.priIsPrime_deep(n)
+                st = lib.alloc(dp)
+                buf = lib.alloc(n * lib.W)
+                res = bytearray()
+                for a in blk:
+                    lib.wr(buf, a.to_bytes(n * lib.W, "little"))
+                    refill(lib, st, dp)
+                    got = lib.priIsPrime(buf, n, st)
+                    res.append(1 if got else 0)
+                    if bool(got) != bool(flags[a - lo]):
+                        rep("priIsPrime:" + ("accepts-composite" if got else "rejects-prime"),
+                            "priIsPrime gives the wrong answer (error probability documented <= 2^-64)",
+                            {"a": a, "n": n, "got": got})
+                lib.release()
+                ctx.digest(bytes(res))
+                ctx.count(255, cls + ":priIsPrime")
+        if "N" in fns and wfit:
+            if ctx.case(["priNextPrimeW", s, 256], cls + ":priNextPrimeW"):
+                st = lib.alloc(lib.priNextPrimeW_deep())
+                out = lib.alloc(lib.W)
+                res = []
+                for a in blk:
+                    exp = nxt[a - lo]
+                    if a.bit_length() <= 1 or exp is None or exp.bit_length() != a.bit_length():
+                        if exp is None and a.bit_length() > 1 and (a + MARG).bit_length() == a.bit_length():
+                            raise Harness("sieve margin too small at %d" % a)
+                        exp = None
+                    refill(lib, st, lib.priNextPrimeW_deep())
+                    got = lib.priNextPrimeW(out, a, st)
+                    val = lib.rdw(out, 1) if got else None
+                    res.append(val)
+                    if val != exp:
+                        rep("priNextPrimeW:" + ("wrong-prime" if got and exp else "reports-none" if exp else "finds-in-wrong-bitlen"),
+                            "priNextPrimeW does not return the least odd prime of [a, 2^l)", {"a": a, "expected": exp, "got": val})
+                lib.release()
+                ctx.digest(repr(res))
+                ctx.count(255, cls + ":priNextPrimeW")
+    rep.flush()
+
+
+# =============================================================================
+# primes: special numbers
+# =============================================================================
+
+SPSP = [2047, 3277, 4033, 4681, 8321, 15841, 29341, 42799, 49141, 52633, 65281, 74665, 80581, 85489, 88357, 90751,
+        1373653, 1530787, 1987021, 2284453, 3116107, 5173601, 6787327, 11541307, 13694761, 15978007, 16070429,
+        25326001, 161304001, 960946321, 1157839381, 3215031751, 3697278427, 5764643587, 6770862367,
+        4759123141, 2152302898747, 3474749660383, 341550071728321, 3825123056546413051,
+        318665857834031151167461, 3317044064679887385961981]
+# 2^k + c with c chosen so that the number is prime (checked against the model before use), and composites of the same shape
+POW2 = [(31, -1), (32, -5), (32, 15), (61, -1), (64, -59), (64, 13), (89, -1), (107, -1), (127, -1), (128, -159), (128, 51),
+        (192, -237), (255, -19), (256, -189), (256, 297), (384, -317), (512, -569), (521, -1),
+        (32, 1), (64, 1), (128, 1), (67, -1), (257, -1), (101, -1), (256, -1), (64, -1), (128, -3)]
+
+
+def _pri_all(ctx, rep, lib, a, cls, iters):
+    """priIsPrimeW (if a fits a word), priIsPrime and priRMTest on a, against the model"""
+    exp = M.is_prime(a)
+    n = nwords(lib, a)
+    desc = ["pri", a, n, iters]
+    if not ctx.case(desc, cls + (":prime" if exp else ":composite")):
+        return
+    res = []
+    if a < (1 << lib.B):
+        st = lib.alloc(lib.priIsPrimeW_deep())
+        got = lib.priIsPrimeW(a, st)
+        res.append(got)
+        if bool(got) != exp:
+            rep("priIsPrimeW:" + ("accepts-composite" if got else "rejects-prime"), "priIsPrimeW wrong", {"a": a, "class": cls})
+    for nn in (n, n + 1):
+        buf = lib.mkw(a, nn)
+        st = lib.alloc(lib.priIsPrime_deep(nn))
+        got = lib.priIsPrime(buf, nn, st)
+        res.append(got)
+        if bool(got) != exp:
+            rep("priIsPrime:" + ("accepts-composite" if got else "rejects-prime"), "priIsPrime wrong",
+                {"a": a, "n": nn, "class": cls})
+    for it in iters:
+        if not exp and it < 16:
+            continue                  # a composite may pass few rounds with the documented probability 4^-iter
+        buf = lib.mkw(a, n)
+        st = lib.alloc(lib.priRMTest_deep(n))
+        got = lib.priRMTest(buf, n, it, st)
+        res.append(got)
+        if bool(got) != exp:
+            rep("priRMTest:" + ("accepts-composite" if got else "rejects-prime"), "priRMTest wrong (iter=%d)" % it,
+                {"a": a, "iter": it, "class": cls})
+    lib.release()
+    ctx.digest(repr(res))
+
+
+def std_primes(lib):
+    """(label, number) for every p, q (or n) of the standard parameter sets, read through the *ParamsStd functions"""
+    out = []
+    for nm in BIGN_STD + BIGN96_STD:
+        p = lib.alloc(336, 0)
+        (lib.bign96ParamsStd if nm in BIGN96_STD else lib.bignParamsStd)(p, lib.cstr(nm))
+        P = M.BIGN.unpack(lib.rd(p, 336))
+        no = P["l"] // 4
+        out += [("bign.p", M.le(P["p"][:no])), ("bign.q", M.le(P["q"][:no]))]
+    for nm in G12S_STD:
+        p = lib.alloc(412, 0)
+        lib.g12sParamsStd(p, lib.cstr(nm))
+        P = M.G12S.unpack(lib.rd(p, 412))
+        out += [("g12s.p", M.le(P["p"][:M.g12s_no(P)])), ("g12s.q", M.le(P["q"][:P["l"] // 8]))]
+    for nm in STB99_STD:
+        p = lib.alloc(976, 0)
+        lib.stb99ParamsStd(p, 0, lib.cstr(nm))
+        P = M.STB99.unpack(lib.rd(p, 976))
+        out += [("stb99.p", M.le(P["p"])), ("stb99.q", M.le(P["q"]))]
+    for nm in PFOK_STD:
+        p = lib.alloc(760, 0)
+        lib.pfokParamsStd(p, 0, lib.cstr(nm))
+        P = M.PFOK.unpack(lib.rd(p, 760))
+        out += [("pfok.p", M.le(P["p"])), ("pfok.q", (M.le(P["p"]) - 1) // 2)]
+    for nm in DSTU_STD:
+        p = lib.alloc(272, 0)
+        lib.dstuParamsStd(p, lib.cstr(nm))
+        P = M.DSTU.unpack(lib.rd(p, 272))
+        out.append(("dstu.n", M.le(P["n"][:(P["p"][0] + 7) // 8])))
+    lib.release()
+    return out
+
+
+def unit_primes_special(ctx):
+    lib, rng, rep = ctx.lib, ctx.rng, Reporter(ctx)
+    part, scale = ctx.params["part"], ctx.params.get("scale", 1.0)
+    M.selftest()
+    if part == "pseudo":
+        for a in SPSP:
+            _pri_all(ctx, rep, lib, a, "strong-pseudoprime", (20,))
+        # Carmichael numbers: Chernick triples (6k+1)(12k+1)(18k+1)
+        ks = [k for k in range(1, 3000) if M.chernick(k)]
+        for bits in (12, 16, 20, 24, 28, 32, 40, 48, 56, 62):
+            k = rng.getrandbits(bits) | (1 << (bits - 1))
+            while not (all((6 * k + 1) % p and (12 * k + 1) % p and (18 * k + 1) % p for p in (5, 7, 11, 13, 17, 19, 23)) and M.chernick(k)):
+                k += 1
+            ks.append(k)
+        for k in ks:
+            _pri_all(ctx, rep, lib, M.chernick(k), "carmichael", (20,))
+            _pri_all(ctx, rep, lib, 18 * k + 1, "carmichael-factor", (0, 1, 7))
+        # neighbourhoods of the base-set thresholds of priIsPrimeW
+        for c in (1373653, 4759123141, 49, 3, 1 << 16):
+            for a in range(max(0, c - 40), c + 40):
+                _pri_all(ctx, rep, lib, a, "threshold", (20,))
+    elif part == "semiprime":
+        cnt = max(4, int(24 * scale))
+        for i in range(cnt):
+            b1, b2 = rng.choice((64, 96, 128, 192, 256)), rng.choice((64, 65, 128, 160, 256))
+            p = M.next_prime(rng.getrandbits(b1) | (1 << (b1 - 1)) | 1) or 3
+            q = M.next_prime(rng.getrandbits(b2) | (1 << (b2 - 1)) | 1) or 5
+            _pri_all(ctx, rep, lib, p * q, "semiprime", (20,))
+            _pri_all(ctx, rep, lib, p * p, "prime-square", (20,))
+            _pri_all(ctx, rep, lib, p, "random-prime", (0, 1, 5, 32))
+            _pri_all(ctx, rep, lib, (p + q) | 1, "random-odd", (20,))
+    elif part == "pow2":
+        for k, c in POW2:
+            _pri_all(ctx, rep, lib, (1 << k) + c, "2^k+c", (1, 20, 40))
+        for k in (16, 31, 32, 33, 63, 64, 65, 127, 128, 129):
+            for c in range(-9, 10):
+                _pri_all(ctx, rep, lib, (1 << k) + c, "2^k-neighbourhood", (20,))
+    elif part == "std":
+        for lab, a in std_primes(lib):
+            _pri_all(ctx, rep, lib, a, "std:" + lab, (1, 8))
+            _pri_all(ctx, rep, lib, a + 2, "std+2:" + lab.split(".")[0], (20,))
+    elif part == "sg":
+        # priIsSGPrime: q odd prime > 1 (pre / expect); answer = primality of 2q + 1
+        qs = [q for q in range(3, 6000) if M.is_prime(q)]
+        for bits in (31, 32, 33, 63, 64, 65, 96, 128, 192, 256):
+            for _ in range(max(2, int(6 * scale))):
+                qs.append(M.next_prime(rng.getrandbits(bits) | (1 << (bits - 1)) | 1) or 3)
+        for lab, a in std_primes(lib):
+            if lab == "pfok.q":
+                qs.append(a)
+        # known Sophie Germain primes of various sizes (2q+1 checked by the model)
+        for q in qs:
+            exp = M.is_prime(2 * q + 1)
+            n = nwords(lib, q)
+            if not ctx.case(["priIsSGPrime", q, n], "sg:" + ("yes" if exp else "no")):
+                continue
+            buf = lib.mkw(q, n)
+            st = lib.alloc(lib.priIsSGPrime_deep(n))
+            got = lib.priIsSGPrime(buf, n, st)
+            lib.release()
+            ctx.digest(got)
+            if bool(got) != exp:
+                rep("priIsSGPrime:" + ("accepts" if got else "rejects"), "priIsSGPrime (deterministic per pri.h) wrong",
+                    {"q": q, "2q+1 prime": exp, "got": got})
+    elif part == "sieve":
+        base = M.base_primes()
+        nb = lib.priBaseSize()
+        if ctx.case(["priBasePrime", "all"], "base:table"):
+            got = [lib.priBasePrime(i) for i in range(nb)]
+            ctx.digest(repr(got))
+            if nb != 1024 or got != base:
+                rep("priBasePrime:not-first-odd-primes", "factor base is not the first 1024 odd primes", {"size": nb})
+        bset = set(base)
+        cand = list(range(1, 600)) + base[-3:] + [base[-1] + 2, base[-1] * base[-1], 3 ** 40, 2 ** 70, 2 ** 64 * 3 * 5]
+        for _ in range(int(300 * scale)):
+            kind = rng.randrange(4)
+            if kind == 0:
+                x = 1
+                for _ in range(rng.randrange(1, 12)):
+                    x *= rng.choice(base[:rng.choice((3, 10, 100, 1024))]) ** rng.randrange(1, 4)
+                x <<= rng.randrange(0, 70)
+            elif kind == 1:
+                x = rng.getrandbits(rng.randrange(2, 200)) | 1
+            elif kind == 2:
+                x = rng.choice(base) * rng.choice(base[:20]) * (M.next_prime(rng.getrandbits(40) | (1 << 39)) or 1)
+            else:
+                x = rng.choice(base) * rng.choice(base)
+            cand.append(x)
+        for a in cand:
+            bcs = [0, 1, 2, 10, 100, 1023, 1024, rng.randrange(1025)]
+            n = nwords(lib, a) + rng.randrange(2)
+            if not ctx.case(["sieve/smooth", a, n, bcs], "sieve-smooth:" + ("small" if a < 10000 else "large")):
+                continue
+            res = []
+            for bc in bcs:
+                buf = lib.mkw(a, n)
+                st = lib.alloc(lib.priIsSieved_deep(bc))
+                got = lib.priIsSieved(buf, n, bc, st)
+                res.append(got)
+                if bool(got) != M.is_sieved(a, bc):
+                    rep("priIsSieved:" + ("accepts" if got else "rejects"), "priIsSieved disagrees with pri.h",
+                        {"a": a, "n": n, "base_count": bc, "got": got})
+                if a not in bset:       # pri.h's remark on base elements is garbled for priIsSmooth: not tested
+                    buf = lib.mkw(a, n)
+                    st = lib.alloc(lib.priIsSmooth_deep(n))
+                    got = lib.priIsSmooth(buf, n, bc, st)
+                    res.append(got)
+                    if bool(got) != M.is_smooth(a, bc):
+                        rep("priIsSmooth:" + ("accepts" if got else "rejects"), "priIsSmooth disagrees with pri.h",
+                            {"a": a, "n": n, "base_count": bc, "got": got})
+                lib.release()
+            ctx.digest(repr(res))
+    rep.flush()
+
+
+# =============================================================================
+# priNextPrime
+# =============================================================================
+
+def _next_prime_case(ctx, rep, lib, a, n, trials, bc, it, cls, inplace=False):
+    """one priNextPrime call against the model; iter >= 16 so that a composite survives with probability <= 4^-16"""
+    if not ctx.case(["priNextPrime", a, n, trials, bc, it, inplace], cls):
+        return
+    exp = M.next_prime(a, None if trials == SIZE_MAX else trials)
+    pa = lib.mkw(a, n)
+    po = pa if inplace else lib.outw(n)
+    st = lib.alloc(lib.priNextPrime_deep(n, bc))
+    got = lib.priNextPrime(po, pa, n, trials, bc, it, st)
+    val = lib.rdw(po, n) if got else None
+    lib.release()
+    ctx.digest(val)
+    if val != exp:
+        lz = n > nwords(lib, a)
+        if got and exp is not None:
+            kind = "not-the-least-prime" if M.is_prime(val) else "returns-composite"
+        elif exp is not None:
+            kind = "reports-none"
+        else:
+            kind = "finds-outside-contract"
+        rep("priNextPrime:%s:%s" % (kind, "leading-zero-words" if lz else "normalized"),
+            "priNextPrime does not return the least odd prime of [a, 2^l) among the first `trials` candidates",
+            {"a": a, "n": n, "trials": trials, "base_count": bc, "iter": it, "expected": exp, "got": val})
+
+
+def unit_nextprime(ctx):
+    lib, rng, rep = ctx.lib, ctx.rng, Reporter(ctx)
+    part, scale = ctx.params["part"], ctx.params.get("scale", 1.0)
+    if part == "small":
+        # every start below 2^11 (and around the end of the factor base) with several base sizes, one-word numbers
+        starts = list(range(0, 2048)) + list(range(8100, 8300))
+        for a in starts:
+            for bc in (0, 3, 1024):
+                _next_prime_case(ctx, rep, lib, a, 1, SIZE_MAX, bc, 16, "np:small-exhaustive")
+    elif part == "gaps":
+        # starts just inside maximal prime gaps; trials one short / exactly enough / plenty
+        gaps = [(113, 127), (1327, 1361), (31397, 31469), (370261, 370373), (2010733, 2010881), (20831323, 20831533),
+                (1357201, 1357333), (4652353, 4652507), (17051707, 17051887), (4302407359, 4302407713)]
+        for p0, p1 in gaps:
+            if not (M.is_prime(p0) and M.is_prime(p1) and M.next_prime(p0 + 1) == p1):
+                raise Harness("gap table wrong at %d" % p0)
+            for a in (p0, p0 + 1, p0 + 2, p1 - 1, p1):
+                need = (p1 - (a | 1)) // 2 + 1 if a > p0 else 1
+                for tr in sorted({0, 1, need - 1, need, need + 1, SIZE_MAX}):
+                    n = nwords(lib, a)
+                    _next_prime_case(ctx, rep, lib, a, n, tr, rng.choice((0, 10, 100, 1024)), 16, "np:gap+trials")
+    elif part == "top":
+        # from the top of a bit length: nothing left -> must report none; from the last prime itself -> that prime
+        for l in list(range(2, 24)) + [31, 32, 33, 48, 63, 64, 65, 96, 127, 128, 129, 192, 255, 256, 257]:
+            top = (1 << l) - 1
+            last = top
+            while not M.is_prime(last):
+                last -= 2
+            n = nwords(lib, top)
+            for a, cls in ((last, "np:last-prime-of-bitlen"), (last + 1, "np:top-of-bitlen-none"), (top, "np:top-of-bitlen-none"),
+                           (last - 1, "np:last-prime-of-bitlen"), (1 << (l - 1), "np:bottom-of-bitlen")):
+                if a.bit_length() != l:
+                    continue
+                if a > last and a != top and M.next_prime(a) is not None:
+                    raise Harness("top-of-bitlen generator")
+                _next_prime_case(ctx, rep, lib, a, n, SIZE_MAX, rng.choice((0, 16, 1024)), 16, cls)
+                _next_prime_case(ctx, rep, lib, a, n, SIZE_MAX, 0, 16, cls, inplace=True)
+    elif part == "random":
+        for i in range(int(60 * scale)):
+            bits = rng.choice((20, 33, 40, 63, 64, 65, 96, 128, 160, 192, 256, 384, 512))
+            a = rng.getrandbits(bits) | (1 << (bits - 1))
+            n = nwords(lib, a)
+            bc = rng.choice((0, 1, 32, 256, 1024))
+            tr = rng.choice((SIZE_MAX, SIZE_MAX, 1, 5, 40, 4 * bits))
+            _next_prime_case(ctx, rep, lib, a, n, tr, bc, 16, "np:random-multiword" if bits > lib.B else "np:random-word",
+                             inplace=rng.random() < 0.3)
+    elif part == "leadzero":
+        # a shorter than n words (pri.h puts no normalisation precondition on [n]a)
+        for a in (2, 3, 5, 7, 11, 13, 100, 1000, 8161, 8167, 8168, 65521, (1 << 31) - 1):
+            for bc in (0, 1, 10, 1024):
+                for extra in (1, 2):
+                    _next_prime_case(ctx, rep, lib, a, nwords(lib, a) + extra, SIZE_MAX, bc, 16, "np:leading-zero-words")
+    rep.flush()
+
+
+# =============================================================================
+# polynomials
+# =============================================================================
+
+def _irred_call(lib, f, n):
+    buf = lib.mkw(f, n)
+    d = lib.ppIsIrred_deep(n)
+    st = lib.alloc(d)
+    return lib.ppIsIrred(buf, n, st)
+
+
+def unit_poly_small(ctx):
+    """exhaustive: every polynomial with integer value in [lo, hi) (degree <= 16 for hi = 2^17) through ppIsIrred,
+    stack exactly ppIsIrred_deep(n)"""
+    lib, rep = ctx.lib, Reporter(ctx)
+    lo, hi = ctx.params["lo"], ctx.params["hi"]
+    if lo == 0:
+        # model cross-check: Rabin against brute-force factoring for every polynomial of degree <= 12
+        for f in range(0, 1 << 13):
+            if gf2poly.is_irreducible(f) != gf2poly.is_irreducible_bruteforce(f):
+                raise Harness("gf2poly.is_irreducible wrong at %d" % f)
+        # dedicated regression cases: stack of exactly ppIsIrred_deep(n) (once under-reported, see known findings)
+        for f, n in ((0x13, 1), (0x13, 2), ((1 << 128) | 0x87, 128 // lib.B + 1), (0x11B, 1)):
+            if ctx.case(["ppIsIrred", f, n, "stack=deep"], "ppIsIrred:stack=deep-exact"):
+                got = _irred_call(lib, f, n)
+                lib.release()
+                ctx.digest(got)
+                if bool(got) != gf2poly.is_irreducible(f):
+                    rep("ppIsIrred:wrong:known-irreducible", "ppIsIrred wrong", {"f": f, "n": n, "got": got})
+    for s in range(lo, hi, 256):
+        n = 1 if (s // 256) % 8 else 2          # every 8th block with a leading zero word
+        if not ctx.case(["ppIsIrred", s, 256, n], "poly:exhaustive-deg<=16"):
+            continue
+        d = lib.ppIsIrred_deep(n)
+        st = lib.alloc(d)
+        buf = lib.alloc(n * lib.W)
+        res = bytearray()
+        for f in range(s, s + 256):
+            lib.wr(buf, f.to_bytes(n * lib.W, "little"))
+            refill(lib, st, d)
+            got = lib.ppIsIrred(buf, n, st)
+            res.append(1 if got else 0)
+            if bool(got) != gf2poly.is_irreducible(f):
+                rep("ppIsIrred:" + ("accepts-reducible" if got else "rejects-irreducible") + ":deg<=16",
+                    "ppIsIrred disagrees with Rabin's test", {"f": f, "n": n, "got": got})
+        lib.release()
+        ctx.digest(bytes(res))
+        ctx.count(255, "poly:exhaustive-deg<=16")
+    rep.flush()
+
+
+def _find_irred(rng, deg):
+    while True:
+        f = rng.getrandbits(deg) | (1 << deg) | 1
+        if gf2poly.is_irreducible(f):
+            return f
+
+
+def unit_poly_large(ctx):
+    """degree 128/192/256: random, library-generated irreducible (belsGenM0), bels standard keys, products of two
+    irreducibles, sparse; ppIsIrred and belsValM (x^l + m) against the model"""
+    lib, rng, rep = ctx.lib, ctx.rng, Reporter(ctx)
+    l, scale = ctx.params["deg"], ctx.params.get("scale", 1.0)
+    ln = l // 8
+    n = l // lib.B + 1
+    cases = []
+    for num in range(17):
+        cases.append(("std", ("std", num)))
+    for i in range(int(6 * scale)):
+        cases.append(("genm0", ("gen", "c12/%d/%d/%d" % (l, ctx.params.get("chunk", 0), i))))
+    for i in range(int(12 * scale)):
+        cases.append(("random", rng.getrandbits(l) | (1 << l)))
+        cases.append(("random-odd-weight", None))
+    small = [_find_irred(rng, d) for d in (1, 2, 3, 5, 8, 13, 31, 32, 33, 63, 64, 65)]
+    for i in range(int(8 * scale)):
+        g = rng.choice(small)
+        d2 = l - gf2poly.deg(g)
+        h = _find_irred(rng, d2) if d2 <= 130 else (rng.getrandbits(d2) | (1 << d2) | 1)
+        cases.append(("product", gf2poly.mul(g, h)))
+    h = _find_irred(rng, l // 2)
+    cases.append(("square", gf2poly.mul(h, h)))
+    cases.append(("product", gf2poly.mul(h, _find_irred(rng, l // 2))))
+    for k in (1, 2, 3, 7, 9, 17):
+        cases.append(("sparse", (1 << l) | (1 << k) | 1))
+    cases.append(("sparse", (1 << l) | 0x87))
+    cases.append(("sparse", (1 << l) | 1))
+    cases.append(("sparse", 1 << l))
+    for kind, spec in cases:
+        if kind == "random-odd-weight":
+            # odd number of terms and constant term 1 (no factor x, x + 1): the interesting random candidates
+            f = rng.getrandbits(l) | (1 << l) | 1
+            if bin(f).count("1") % 2 == 0:
+                f ^= 1 << rng.randrange(1, l)
+            spec = f
+        if not ctx.case(["irred", l, kind, spec], "poly%d:%s" % (l, kind)):
+            continue
+        if kind == "std":
+            m = lib.alloc(ln)
+            if lib.belsStdM(m, ln, spec[1]) != 0:
+                raise Harness("belsStdM failed")
+            f = (1 << l) | M.le(lib.rd(m, ln))
+        elif kind == "genm0":
+            gen, st = brng(lib, spec[1])
+            m = lib.alloc(ln)
+            r = lib.belsGenM0(m, ln, gen, st)
+            if r != 0:
+                lib.release()
+                rep("belsGenM0:fails", "belsGenM0 fails with a brngCTR generator", {"len": ln, "ret": r})
+                continue
+            f = (1 << l) | M.le(lib.rd(m, ln))
+        else:
+            f = spec
+        lib.release()
+        exp = gf2poly.is_irreducible(f)
+        if kind in ("std", "genm0") and not exp:
+            rep("bels:%s-key-reducible" % kind, "a standard / generated bels key is reducible by the model", {"f": f})
+        if kind in ("product", "square") and exp:
+            raise Harness("product of polynomials irreducible?")
+        res = []
+        for nn in (n, n + 1):
+            got = _irred_call(lib, f, nn)
+            lib.release()
+            res.append(got)
+            if bool(got) != exp:
+                rep("ppIsIrred:%s:deg%d" % ("accepts-reducible" if got else "rejects-irreducible", l),
+                    "ppIsIrred disagrees with Rabin's test", {"f": f, "n": nn, "kind": kind, "got": got})
+        m = lib.mk(M.to_le(f ^ (1 << l), ln))
+        r = lib.belsValM(m, ln)
+        lib.release()
+        res.append(r)
+        if (r == 0) != exp:
+            rep("belsValM:%s" % ("accepts-reducible" if r == 0 else "rejects-irreducible"),
+                "belsValM disagrees with the irreducibility of x^l + m(x)", {"m": M.to_le(f ^ (1 << l), ln), "kind": kind, "ret": r})
+        ctx.digest(repr(res))
+    # altered standard keys: single bit flips (the model decides; most become reducible)
+    for i in range(int(24 * scale)):
+        num, bit = rng.randrange(17), rng.randrange(l)
+        if not ctx.case(["belsValM", l, "std-bitflip", num, bit], "bels%d:std-bitflip" % l):
+            continue
+        m = lib.alloc(ln)
+        lib.belsStdM(m, ln, num)
+        key = M.to_le(M.le(lib.rd(m, ln)) ^ (1 << bit), ln)
+        lib.release()
+        exp = M.bels_valid(key)
+        r = lib.belsValM(lib.mk(key), ln)
+        lib.release()
+        ctx.digest(r)
+        if (r == 0) != exp:
+            rep("belsValM:%s" % ("accepts-reducible" if r == 0 else "rejects-irreducible"),
+                "belsValM disagrees with the irreducibility of x^l + m(x)", {"m": key, "ret": r})
+    # lengths outside {16, 24, 32}: documented ERR_BAD_INPUT
+    if l == 128:
+        for bad in (0, 1, 8, 15, 17, 23, 25, 31, 33, 64):
+            if not ctx.case(["belsValM", "bad-len", bad], "bels:bad-len"):
+                continue
+            r = lib.belsValM(lib.mk(bytes(bad)), bad)
+            lib.release()
+            ctx.digest(r)
+            if r == 0:
+                rep("belsValM:accepts-bad-len", "belsValM accepts a length outside {16,24,32}", {"len": bad})
+    rep.flush()
+
+
+# =============================================================================
+# long-term parameters: standard sets + alterations
+# =============================================================================
+
+def _setf(P, f, raw):
+    Q = dict(P)
+    Q[f] = bytes(raw)
+    return Q
+
+
+def generic_alterations(rng, P, fields, nflip):
+    """fields: list of (name, used octets).  Yields (label, altered dict); label = kind:field (stable, no random part)"""
+    out = []
+    for f, no in fields:
+        raw = P[f]
+        tot = len(raw)
+        v = M.le(raw[:no])
+
+        def put(x, f=f, no=no, raw=raw):
+            return _setf(P, f, M.to_le(x % (1 << (8 * no)), no) + raw[no:])
+        for _ in range(nflip):
+            out.append(("flip:" + f, put(v ^ (1 << rng.randrange(8 * no)))))
+        for _ in range(max(1, nflip // 4)):
+            i, j = rng.randrange(no), rng.randrange(no)
+            b = bytearray(raw)
+            b[i], b[j] = b[j], b[i]
+            if bytes(b) != raw:
+                out.append(("swap:" + f, _setf(P, f, b)))
+        for lab, x in (("zero", 0), ("one", 1), ("ones", (1 << (8 * no)) - 1), ("+1", v + 1), ("-1", v - 1), ("+2", v + 2),
+                       ("+4", v + 4), ("x2", 2 * v), ("x2+1", 2 * v + 1), ("x3", 3 * v), ("half", v >> 1), ("top-octet-zero", v & ((1 << (8 * no - 8)) - 1)),
+                       ("low-octet-zero", v & ~0xFF), ("reversed", M.le(raw[:no][::-1]))):
+            if x % (1 << (8 * no)) != v:
+                out.append(("%s:%s" % (lab, f), put(x)))
+        if tot > no:
+            b = bytearray(raw)
+            b[rng.randrange(no, tot)] = rng.randrange(1, 256)
+            out.append(("unused-octet:" + f, _setf(P, f, b)))
+            b = bytearray(raw)
+            b[no] = 1
+            out.append(("unused-octet:" + f, _setf(P, f, b)))
+    return out
+
+
+def _next_prime_same_len(x, cond=lambda t: True):
+    t = x + 2
+    while not (M.is_prime(t) and cond(t)):
+        t += 2
+    return t if t.bit_length() == x.bit_length() else None
+
+
+def run_param_cases(ctx, rep, fname, layout, cases, verdict_fn, call):
+    """cases: list of (label, dict).  For each: announce, model verdict, library call, judgement"""
+    lib = ctx.lib
+    for label, Q in cases:
+        raw = layout.pack(Q)
+        if not ctx.case([fname, ctx.params.get("set"), label, raw], "%s:%s" % (fname, label.split(":")[0])):
+            continue
+        verdict, reason = verdict_fn(Q)
+        p = lib.mk(raw)
+        r = call(p)
+        after = lib.rd(p, layout.size)
+        lib.release()
+        ctx.digest(r)
+        if after != raw:
+            rep("%s:modifies-input" % fname, "%s wrote into its const input" % fname, {"label": label})
+        ctx.classes["%s:model-%s" % (fname, {True: "accept", False: "reject", None: "undecided"}[verdict])] += 1
+        judge(ctx, rep, fname, label, verdict, reason, r == 0,
+              {"set": ctx.params.get("set"), "alteration": label, "model": [verdict, reason], "ret": r, "params": raw})
+
+
+def _chunk(cases, ctx):
+    """deterministic split of the case list over the job's chunk parameter"""
+    k, n = ctx.params.get("chunk", 0), ctx.params.get("chunks", 1)
+    return [c for i, c in enumerate(cases) if i % n == k]
+
+
+def unit_bign(ctx):
+    lib, rng, rep = ctx.lib, ctx.rng, Reporter(ctx)
+    model_selftest(ctx)
+    name, nflip = ctx.params["set"], ctx.params.get("flips", 8)
+    v96 = name in BIGN96_STD
+    variant = "bign96" if v96 else "bign"
+    fname = "bign96ParamsVal" if v96 else "bignParamsVal"
+    H = hash_fn(lib)
+    p = lib.alloc(336, 0)
+    if (lib.bign96ParamsStd if v96 else lib.bignParamsStd)(p, lib.cstr(name)) != 0:
+        raise Harness("ParamsStd(%s) failed" % name)
+    P = M.BIGN.unpack(lib.rd(p, 336))
+    lib.release()
+    l = P["l"]
+    no = l // 4
+    fields = [("p", no), ("a", no), ("b", no), ("q", no), ("yG", no), ("seed", 8)]
+    cases = [("std", P)]
+    cases += generic_alterations(rng, P, fields, nflip)
+    pv, av, bv, qv, yv = (M.le(P[f][:no]) for f in ("p", "a", "b", "q", "yG"))
+
+    def putv(f, x):
+        return _setf(P, f, M.to_le(x, no) + P[f][no:])
+    sp = [("q=p", putv("q", pv)), ("p=q", putv("p", qv)),
+          ("swap-p-q", dict(putv("q", pv), p=putv("p", qv)["p"])),
+          ("yG=p-yG", putv("yG", pv - yv)), ("yG=yG+p", None), ("b=p-b", putv("b", pv - bv)),
+          ("a=p", None), ("a=a+p", None), ("b=b+p", None), ("yG=p", None)]
+    for f, x, lab in (("yG", yv + pv, "yG=yG+p"), ("a", pv, "a=p"), ("a", av + pv, "a=a+p"), ("b", bv + pv, "b=b+p"), ("yG", pv, "yG=p")):
+        sp = [(s, (putv(f, x) if s == lab and x < (1 << (8 * no)) else d)) for s, d in sp]
+    sp = [(s, d) for s, d in sp if d is not None]
+    qn = _next_prime_same_len(qv)
+    if qn:
+        sp.append(("q=next-prime", putv("q", qn)))
+    pn = _next_prime_same_len(pv, lambda t: t % 4 == 3)
+    if pn:
+        sp.append(("p=next-prime-3mod4", putv("p", pn)))
+    for lv in (0, 64, 96, 128, 192, 256, 129, 512, 1 << 32, SIZE_MAX):
+        if lv != l:
+            sp.append(("l=%d" % lv, dict(P, l=lv)))
+    sd = M.le(P["seed"])
+    sp.append(("seed+1", dict(P, seed=M.to_le((sd + 1) % (1 << 64), 8))))
+    sp.append(("seed-1", dict(P, seed=M.to_le((sd - 1) % (1 << 64), 8))))
+    cases += [("special:" + s, d) for s, d in sp]
+    cases = _chunk(cases, ctx)
+    run_param_cases(ctx, rep, fname, M.BIGN, cases, lambda Q: M.bign_verdict(Q, H, variant),
+                    lib.bign96ParamsVal if v96 else lib.bignParamsVal)
+    rep.flush()
+
+
+def unit_g12s(ctx):
+    lib, rng, rep = ctx.lib, ctx.rng, Reporter(ctx)
+    model_selftest(ctx)
+    name, nflip = ctx.params["set"], ctx.params.get("flips", 8)
+    p = lib.alloc(412, 0)
+    if lib.g12sParamsStd(p, lib.cstr(name)) != 0:
+        raise Harness("g12sParamsStd(%s) failed" % name)
+    P = M.G12S.unpack(lib.rd(p, 412))
+    lib.release()
+    l, no = P["l"], M.g12s_no(P)
+    fields = [("p", no), ("a", no), ("b", no), ("q", l // 8), ("xP", no), ("yP", no)]
+    cases = [("std", P)] + generic_alterations(rng, P, fields, nflip)
+    pv, av, bv, xv, yv = (M.le(P[f][:no]) for f in ("p", "a", "b", "xP", "yP"))
+    qv = M.le(P["q"][:l // 8])
+    E = ec.Curve(pv, av, bv)
+
+    def putv(f, x, n=None):
+        n = n or no
+        return _setf(P, f, M.to_le(x, n) + P[f][n:])
+
+    def putP(pt):
+        return dict(putv("xP", pt[0]), yP=putv("yP", pt[1])["yP"])
+    G = (xv, yv)
+    sp = [("P=2P", putP(E.mul(2, G))), ("P=-P", putP(E.neg(G))), ("P=kP", putP(E.mul(rng.randrange(2, qv), G))),
+          ("yP=yP+1", putv("yP", (yv + 1) % pv)), ("q=p", None), ("n=0", dict(P, n=0)), ("n=2", dict(P, n=2)),
+          ("n=n+1", dict(P, n=P["n"] + 1)), ("n=max", dict(P, n=0xFFFFFFFF))]
+    if pv < (1 << (8 * (l // 8))):
+        sp.append(("q=p", putv("q", pv, l // 8)))
+    # point of the twist: x with non-residue right-hand side
+    x = xv
+    while True:
+        x = (x + 1) % pv
+        rhs = (x * x * x + av * x + bv) % pv
+        if ec.legendre(rhs, pv) == -1:
+            break
+    sp.append(("P=off-curve-twist", putP((x, rng.randrange(pv)))))
+    for f, v in (("xP", xv), ("yP", yv), ("a", av), ("b", bv)):
+        if v + pv < (1 << (8 * no)):
+            sp.append(("%s+p" % f, putv(f, v + pv)))
+    qn = _next_prime_same_len(qv)
+    if qn:
+        sp.append(("q=next-prime", putv("q", qn, l // 8)))
+    for lv in (0, 128, 256, 512, 1024, 257):
+        if lv != l:
+            sp.append(("l=%d" % lv, dict(P, l=lv)))
+    # unused octets are arbitrary (g12s.h): fill all of them with random octets
+    Q = dict(P)
+    for f, n in fields:
+        Q[f] = P[f][:n] + bytes(rng.randrange(256) for _ in range(len(P[f]) - n))
+    if l == 256:
+        Q["p"] = P["p"][:34] + bytes(rng.randrange(256) for _ in range(34))       # p: first 68*l/512 octets are read
+    sp.append(("unused-octets-random", Q))
+    cases += [("special:" + s, d) for s, d in sp if d is not None]
+    cases = _chunk(cases, ctx)
+    run_param_cases(ctx, rep, "g12sParamsVal", M.G12S, cases, M.g12s_verdict, lib.g12sParamsVal)
+    rep.flush()
+
+
+def unit_stb99(ctx):
+    lib, rng, rep = ctx.lib, ctx.rng, Reporter(ctx)
+    M.selftest()
+    name, nflip = ctx.params["set"], ctx.params.get("flips", 4)
+    p = lib.alloc(976, 0)
+    if lib.stb99ParamsStd(p, 0, lib.cstr(name)) != 0:
+        raise Harness("stb99ParamsStd(%s) failed" % name)
+    P = M.STB99.unpack(lib.rd(p, 976))
+    lib.release()
+    l, r = P["l"], P["r"]
+    no, mo = (l + 7) // 8, (r + 7) // 8
+    fields = [("p", no), ("q", mo), ("a", no), ("d", no)]
+    cases = [("std", P)] + generic_alterations(rng, P, fields, nflip)
+    pv, qv, av, dv = M.le(P["p"]), M.le(P["q"]), M.le(P["a"]), M.le(P["d"])
+
+    def putv(f, x, n):
+        return _setf(P, f, M.to_le(x, n) + P[f][n:])
+    e = M.mont_unity(pv, l)
+    d2 = rng.randrange(2, pv)
+    sp = [("a=d=0", dict(P, a=bytes(308), d=bytes(308))),
+          ("d=e,a=e", dict(putv("d", e, no), a=putv("a", e, no)["a"])),
+          ("a=e", putv("a", e, no)),
+          ("d=random,a=d^((p-1)/q)", dict(putv("d", d2, no), a=putv("a", M.mont_power(d2, (pv - 1) // qv, pv, l), no)["a"])),
+          ("d=a,a=a^((p-1)/q)", dict(putv("d", av, no), a=putv("a", M.mont_power(av, (pv - 1) // qv, pv, l), no)["a"])),
+          ("a=a^(2)", putv("a", M.mont_power(av, 2, pv, l), no)),
+          ("d=d+p", putv("d", dv + pv, no) if dv + pv < (1 << (8 * no)) else None),
+          ("a=a+p", putv("a", av + pv, no) if av + pv < (1 << (8 * no)) else None)]
+    qn = _next_prime_same_len(qv)
+    if qn:
+        sp.append(("q=next-prime", putv("q", qn, mo)))
+    # q <- another prime divisor-free value: q' = 2q+1 truncated is meaningless; use q * small (bit length changes)
+    sp.append(("q=3q", putv("q", 3 * qv, mo) if 3 * qv < (1 << (8 * mo)) else None))
+    for lv, rv in ((0, 0), (l, r + 1), (l + 1, r), (STB99L_other(l), r), (l, 0), (SIZE_MAX, r)):
+        sp.append(("l,r=%d,%d" % (lv, rv), dict(P, l=lv, r=rv)))
+    cases += [("special:" + s, d) for s, d in sp if d is not None]
+    cases = _chunk(cases, ctx)
+    run_param_cases(ctx, rep, "stb99ParamsVal", M.STB99, cases, M.stb99_verdict, lib.stb99ParamsVal)
+    rep.flush()
+
+
+def STB99L_other(l):
+    return M.STB99_L[(M.STB99_L.index(l) + 1) % len(M.STB99_L)]
+
+
+def unit_pfok(ctx):
+    lib, rng, rep = ctx.lib, ctx.rng, Reporter(ctx)
+    M.selftest()
+    name, nflip = ctx.params["set"], ctx.params.get("flips", 4)
+    p = lib.alloc(760, 0)
+    if lib.pfokParamsStd(p, 0, lib.cstr(name)) != 0:
+        raise Harness("pfokParamsStd(%s) failed" % name)
+    P = M.PFOK.unpack(lib.rd(p, 760))
+    lib.release()
+    l = P["l"]
+    no = (l + 7) // 8
+    fields = [("p", no), ("g", no)]
+    cases = [("std", P)] + generic_alterations(rng, P, fields, nflip)
+    pv, gv = M.le(P["p"]), M.le(P["g"])
+
+    def putv(f, x):
+        return _setf(P, f, M.to_le(x, no) + P[f][no:])
+    e = M.mont_unity(pv, l)
+    sp = [("g=e", putv("g", e)), ("g=-e", putv("g", pv - e)), ("g=g^(2)", putv("g", M.mont_power(gv, 2, pv, l))),
+          ("g=g^(3)", putv("g", M.mont_power(gv, 3, pv, l))), ("g=random", putv("g", rng.randrange(1, pv))),
+          ("g=p", putv("g", pv)), ("g=p-1", putv("g", pv - 1)),
+          ("g=g+p", putv("g", gv + pv) if gv + pv < (1 << (8 * no)) else None),
+          ("n=l", dict(P, n=l)), ("n=l-1", dict(P, n=l - 1)), ("n=0", dict(P, n=0)), ("n=max", dict(P, n=SIZE_MAX)),
+          ("r+1", dict(P, r=P["r"] + 1)), ("r=0", dict(P, r=0)), ("l+1", dict(P, l=l + 1)), ("l=0", dict(P, l=0)),
+          ("l=other-level", dict(P, l=M.PFOK_L[(M.PFOK_L.index(l) + 1) % len(M.PFOK_L)]))]
+    cases += [("special:" + s, d) for s, d in sp if d is not None]
+    cases = _chunk(cases, ctx)
+    run_param_cases(ctx, rep, "pfokParamsVal", M.PFOK, cases, M.pfok_verdict, lib.pfokParamsVal)
+    rep.flush()
+
+
+def dstu_std(lib, name):
+    """standard curve + base point generated by dstuPointGen on a deterministic brngCTR tape (DSTU defines none)"""
+    p = lib.alloc(272, 0)
+    if lib.dstuParamsStd(p, lib.cstr(name)) != 0:
+        raise Harness("dstuParamsStd(%s) failed" % name)
+    P = M.DSTU.unpack(lib.rd(p, 272))
+    no = (P["p"][0] + 7) // 8
+    gen, st = brng(lib, "c12/dstu/" + name)
+    pt = lib.alloc(2 * no)
+    r = lib.dstuPointGen(pt, p, gen, st)
+    if r != 0:
+        raise Harness("dstuPointGen(%s) failed: %d" % (name, r))
+    P["P"] = lib.rd(pt, 2 * no) + bytes(128 - 2 * no)
+    lib.release()
+    return P, no
+
+
+def unit_dstu(ctx):
+    lib, rng, rep = ctx.lib, ctx.rng, Reporter(ctx)
+    M.selftest()
+    name, nflip = ctx.params["set"], ctx.params.get("flips", 4)
+    P, no = dstu_std(lib, name)
+    m = P["p"][0]
+    fields = [("B", no), ("n", no), ("P", 2 * no)]
+    cases = [("std", P)] + generic_alterations(rng, P, fields, nflip)
+    E, _ = M.dstu_curve(P)
+    nv = M.le(P["n"][:no])
+    G = (M.le(P["P"][:no]), M.le(P["P"][no:2 * no]))
+
+    def putP(pt):
+        return _setf(P, "P", M.to_le(pt[0], no) + M.to_le(pt[1], no) + P["P"][2 * no:])
+    sp = [("P=2P", putP(E.mul(2, G))), ("P=-P", putP(E.neg(G))), ("P=kP", putP(E.mul(rng.randrange(3, 1 << 64), G))),
+          ("P=order-2-point", putP((0, gf2poly.powmod(M.le(P["B"][:no]), 1 << (m - 1), E.f)))),
+          ("P.y+1", putP((G[0], G[1] ^ 1))), ("P=(0,0)", putP((0, 0))),
+          ("A=1-A", dict(P, A=1 - P["A"])), ("A=2", dict(P, A=2)), ("A=255", dict(P, A=255)),
+          ("c=0", dict(P, c=0)), ("c+1", dict(P, c=P["c"] + 1)), ("c-1", dict(P, c=P["c"] - 1)), ("c=2c", dict(P, c=2 * P["c"])),
+          ("c=max", dict(P, c=0xFFFFFFFF))]
+    if m % 8:
+        sp.append(("P.x-high-bit", putP((G[0] | (1 << m), G[1]))))
+        sp.append(("B-high-bit", _setf(P, "B", M.to_le(M.le(P["B"][:no]) | (1 << m), no) + P["B"][no:])))
+    nn = _next_prime_same_len(nv)
+    if nn:
+        sp.append(("n=next-prime", _setf(P, "n", M.to_le(nn, no) + P["n"][no:])))
+    p4 = P["p"]
+    for lab, q4 in (("p1+1", [p4[0], p4[1] + 1, p4[2], p4[3]]), ("m+1", [p4[0] + 1, p4[1], p4[2], p4[3]]),
+                    ("m-1", [p4[0] - 1, p4[1], p4[2], p4[3]]), ("m=159", [159, p4[1], p4[2], p4[3]]),
+                    ("m=510", [510, p4[1], p4[2], p4[3]]), ("m=0", [0, p4[1], p4[2], p4[3]]), ("m=65535", [65535, p4[1], p4[2], p4[3]]),
+                    ("p3=1-only", [p4[0], p4[1], 0, 1]), ("p2=p1", [p4[0], p4[1], p4[1], p4[3]]),
+                    ("unsorted", [p4[0], p4[3], p4[2], p4[1]]), ("normal-basis", [p4[0], 0, 0, 0]),
+                    ("p1=m", [p4[0], p4[0], p4[2], p4[3]]), ("other-irreducible", [163, 7, 6, 3] if m != 163 else [167, 6, 0, 0])):
+        sp.append(("field:" + lab, dict(P, p=q4)))
+    Q = dict(P)
+    for f, n in fields:
+        Q[f] = P[f][:n] + bytes(rng.randrange(256) for _ in range(len(P[f]) - n))
+    sp.append(("unused-octets-random", Q))
+    cases += [("special:" + s, d) for s, d in sp if d is not None]
+    cases = _chunk(cases, ctx)
+    B = lib.B
+    run_param_cases(ctx, rep, "dstuParamsVal", M.DSTU, cases, lambda Q: M.dstu_verdict(Q, B), lib.dstuParamsVal)
+    # dstuPointVal (section 10.1: point of the curve of order n) on the standard curve
+    pts = [("base", G, True), ("2P", E.mul(2, G), True), ("-P", E.neg(G), True), ("kP", E.mul(rng.getrandbits(m - 2) | 1, G), True),
+           ("order-2", (0, gf2poly.powmod(M.le(P["B"][:no]), 1 << (m - 1), E.f)), False), ("y+1", (G[0], G[1] ^ 1), False),
+           ("(0,0)", (0, 0), False)]
+    if m % 8:
+        pts.append(("x-high-bit", (G[0] | (1 << m), G[1]), False))
+        pts.append(("y-high-bit", (G[0], G[1] | (1 << m)), False))
+    # a point of the curve outside the subgroup: P + (point of order 2)
+    o2 = (0, gf2poly.powmod(M.le(P["B"][:no]), 1 << (m - 1), E.f))
+    pts.append(("P+order2", E.add(G, o2), False))
+    for _ in range(4):
+        pts.append(("random", (rng.getrandbits(m), rng.getrandbits(m)), None))
+    for lab, pt, exp in pts:
+        raw = M.to_le(pt[0], no) + M.to_le(pt[1], no)
+        if not ctx.case(["dstuPointVal", name, lab, raw], "dstuPointVal:" + lab):
+            continue
+        if exp is None:
+            exp = E.is_on(pt) and E.mul(nv, pt) is None
+        elif exp != (E.is_on(pt) and E.mul(nv, pt) is None):
+            raise Harness("dstu point generator: %s" % lab)
+        pp = lib.mk(M.DSTU.pack(P))
+        r = lib.dstuPointVal(pp, lib.mk(raw))
+        lib.release()
+        ctx.digest(r)
+        judge(ctx, rep, "dstuPointVal", lab, exp, lab, r == 0, {"set": name, "point": raw, "ret": r})
+    rep.flush()
